@@ -42,7 +42,7 @@ LEVEL_NOTE = ('Trusted: NumPy arithmetic, Hypothesis, evaluation of ODL leaf '
               'derived per case from a perturbed re-run of the reference '
               '(rounding-error propagation through the same tree).')
 DESIGN_REF = 'DESIGN.md section 5, C04'
-BUDGET = {'quick': 8000, 'thorough': 150000}
+BUDGET = {'quick': 8000, 'thorough': 100000}
 NOISE = 4.0
 TOLERANCES = {
     'value': '|got-ref|_max <= 16*delta + 64*eps(dtype)*(depth+1)*|ref|_max '
@@ -77,58 +77,6 @@ RULE = ('Hypothesis draws (type table: space kind/dtype/weighting; root '
 # --------------------------------------------------------------------------
 # strategy
 
-@st.composite
-def _weighting(draw, shape, kinds):
-    k = draw(st.sampled_from(kinds))
-    if k == 'none':
-        return None
-    if k == 'const':
-        return {'type': 'const',
-                'value': draw(st.sampled_from([2.0, 0.5, 1.5, 3.0, 0.25]))}
-    size = int(np.prod(shape, dtype=int))
-    vals = draw(st.lists(st.sampled_from([1.0, 2.0, 0.5, 1.5, 3.0]),
-                         min_size=size, max_size=size))
-    return {'type': 'array', 'data': np.array(vals).reshape(shape).tolist()}
-
-
-@st.composite
-def envs(draw):
-    cplx = draw(st.sampled_from([False, False, True]))
-    prec = draw(st.sampled_from(['64', '64', '64', '32']))
-    dtype = ('complex' + {'64': '128', '32': '64'}[prec]) if cplx \
-        else 'float' + prec
-    skind = draw(st.sampled_from(['tensor', 'tensor', 'discr']))
-    if draw(st.sampled_from([True] + [False] * 4)):
-        shape = draw(st.sampled_from([[2, 2], [2, 3], [3, 2], [1, 3]]))
-    else:
-        shape = [draw(st.sampled_from([1, 2, 3, 3, 4, 5]))]
-    if skind == 'tensor':
-        X = {'kind': 'tensor', 'shape': shape, 'dtype': dtype,
-             'exponent': 2.0,
-             'weighting': draw(_weighting(
-                 shape, ['none', 'none', 'const', 'array'] if prec == '64'
-                 else ['none', 'const']))}
-    else:
-        nob = draw(st.booleans()) and min(shape) > 1
-        cell = draw(st.sampled_from([1.0, 0.5, 0.25, 2.0]))
-        X = {'kind': 'discr', 'min': [0.0] * len(shape),
-             'max': [cell * (s - 1 if nob else s) for s in shape],
-             'shape': shape, 'dtype': dtype, 'exponent': 2.0,
-             'nodes_on_bdry': nob,
-             'weighting': draw(_weighting(shape, ['none', 'none', 'none',
-                                                  'const']))}
-    m = draw(st.sampled_from([1, 2, 3, 4]))
-    Y = {'kind': 'tensor', 'shape': [m], 'dtype': dtype, 'exponent': 2.0,
-         'weighting': draw(_weighting([m], ['none', 'none', 'const']))}
-    X['fkey'] = Y['fkey'] = 'F'
-    types = {'X': X, 'Y': Y,
-             'F': {'kind': 'field_of', 'of': 'X', 'fkey': 'F'}}
-    if cplx:
-        types['Xr'] = {'kind': 'real_of', 'of': 'X', 'fkey': 'R'}
-        types['R'] = {'kind': 'reals', 'fkey': 'R'}
-    return types
-
-
 ROOTS_REAL = [('X', 'X')] * 6 + [('X', 'Y'), ('Y', 'X'), ('Y', 'Y')] + \
     [('X', 'F')] * 4 + [('F', 'X'), ('F', 'F')]
 ROOTS_CPLX = ROOTS_REAL + [('X', 'Xr')] * 2 + [('Xr', 'X'), ('X', 'R'),
@@ -137,7 +85,7 @@ ROOTS_CPLX = ROOTS_REAL + [('X', 'Xr')] * 2 + [('Xr', 'X'), ('X', 'R'),
 
 @st.composite
 def _strategy(draw, tier):
-    types = draw(envs())
+    types = draw(ex.base_types())
     cplx = 'Xr' in types
     pairs = ex.inhabited_pairs(types, 'c04')
     roots = [r for r in (ROOTS_CPLX if cplx else ROOTS_REAL) if r in pairs]
